@@ -1527,7 +1527,13 @@ func vwFresh(r *rand.Rand) string {
 }
 
 func TestVerifReplay(t *testing.T) {
-	kind, seed := %q, int64(%d)
+	kind, seed0 := %q, int64(%d)
+	for _, seed := range []int64{seed0, seed0 + 7919, seed0 + 15838} {
+		vwReplayOne(t, kind, seed)
+	}
+}
+
+func vwReplayOne(t *testing.T, kind string, seed int64) {
 	if kind == "" || kind == "alpha" {
 		vwKeyMut(t)
 		vwRun(t, vwKind[string]{name: "alpha", mk: func() Tree[string, int] { return NewAlphaSortedTree[string, int]() },
